@@ -22,7 +22,12 @@ def _alarm(*a):
 def make_classes(spec, tag):
     classes = []
     for c, cs in enumerate(spec):
-        fields = [(f'c{c}f{j}', Any, field(default=None)) for j in range(cs['own'])]
+        fields = []
+        for j in range(cs['own'] + 1):
+            if j in cs.get('hidden', []):
+                fields.append((f'c{c}h{j}', Any, field(default=7, init=False)))      # an attribute, not a constructor parameter
+            if j < cs['own']:
+                fields.append((f'c{c}f{j}', Any, field(default=None)))
         bases = (classes[cs['parent']],) if cs['parent'] is not None else ()
         cls = make_dataclass(f'K{tag}_{c}', fields, bases=bases, eq=False)
         if cs['decorated'] or cs['parent'] is None:
